@@ -1,11 +1,15 @@
 #!/bin/bash
 # applies each stored behaviour-preserving refactoring (refactor_twins/<name>/patch.diff) to a scratch copy of /repo and runs
-# ALL checks (or the listed ones): every check must stay at exit 0 (only KNOWN-FINDING lines).
-# usage: tools/twin_matrix.sh [glob, default '*'] [props...]
+# the checks on it: every check must stay at exit 0 (only KNOWN-FINDING lines).
+# usage: tools/twin_matrix.sh [glob, default '*'] [all | props...]
+#   default property set per twin: the twin's own property + every property whose anchors name a file the patch touches
 cd "$(dirname "$0")/.."
 pat=${1:-*}; shift
-props=${*:-$(printf "C%02d " $(seq 1 20))}
+sel=${*:-auto}
 for r in refactor_twins/$pat/; do
+  if [ "$sel" = "all" ]; then props=$(printf "C%02d " $(seq 1 20));
+  elif [ "$sel" = "auto" ]; then props=$(python3 tools/twin_props.py "$r/patch.diff" "$(basename $r)");
+  else props=$sel; fi
   out=$(TIER=${TIER:-quick} tools/try_patch.sh "$r/patch.diff" $props 2>&1 | grep -E "^C[0-9]+ \[|PATCH DOES NOT" | awk '{ if ($0 ~ /PATCH/) print "NOAPPLY"; else { split($5,a,"="); split($7,u,"="); split($8,e,"="); if (a[2]>0 || u[2]>0 || e[2]>0) printf "%s(v=%s,u=%s,e=%s) ", $1, a[2], u[2], e[2] } }')
-  echo "$(basename $r): ${out:-quiet}"
+  echo "$(basename $r) [$(echo $props | tr ' ' ',')]: ${out:-quiet}"
 done
